@@ -87,14 +87,14 @@ def monotone_map_ops(n, desc=False):
 VEC_HDR = "import stdlib.std.vector;\n"
 
 
-def vec_program(ops):
-    L = [VEC_HDR, "void show(Vector<int> v) {", "    print(\"[\");", "    long n = v.get_length();",
+def vec_program(ops, ety="int"):
+    L = [VEC_HDR, "void show(Vector<%s> v) {" % ety, "    print(\"[\");", "    long n = v.get_length();",
          "    for (long i = 0; i < n; i++) { if (i > 0) { print(\",\"); } print(v.at(i)); }", "    println(\"]\");", "}",
-         "int main() {", "    Vector<int> v;"]
+         "int main() {", "    Vector<%s> v;" % ety]
     for op in ops:
         f = op.split(" ")
         c = {"pb": "v.push_back(%s);", "pf": "v.push_front(%s);", "ob": "v.pop_back();", "of": "v.pop_front();",
-             "d": "v.delete_at(%s);", "sa": "v.smaller();", "sd": "v.greater();", "x": "v.clear();"}
+             "d": "v.delete_at(%s);", "sa": "v.smaller();", "sd": "v.greater();", "so": "v.sort();", "x": "v.clear();"}
         if f[0] in c:
             L.append("    " + (c[f[0]] % f[1] if "%s" in c[f[0]] else c[f[0]]) + " show(v);")
         elif f[0] == "a":
@@ -107,12 +107,18 @@ def vec_program(ops):
     return "\n".join(L) + "\n"
 
 
-def gen_vec_ops(r, n):
+def gen_vec_ops(r, n, wide=0):
+    """wide: 0 small values, 1 values over the whole int range, 2 values beyond 32 bits (Vector<long>)"""
+    def val():
+        if wide and r.chance(55):
+            m = 2147483647 if wide == 1 else 9000000000
+            return r.choice([m, -m, m - r.below(50), -m + r.below(50), r.range(-m, m)])
+        return r.range(-50, 50)
     ops, ln = [], 0
     for _ in range(n):
         k = r.below(100)
         if k < 30 or ln == 0:
-            ops.append(("pb %d" if r.chance(60) else "pf %d") % r.range(-50, 50)); ln += 1
+            ops.append(("pb %d" if r.chance(60) else "pf %d") % val()); ln += 1
         elif k < 42:
             ops.append(r.choice(["ob", "of"])); ln -= 1
         elif k < 50:
@@ -120,9 +126,9 @@ def gen_vec_ops(r, n):
         elif k < 68:
             ops.append("a %d" % r.below(ln))
         elif k < 78:
-            ops.append("f %d" % r.range(-50, 50))
+            ops.append("f %d" % val())
         elif k < 88:
-            ops.append(r.choice(["sa", "sd"]))
+            ops.append(r.choice(["sa", "sd", "so"]))
         elif k < 96:
             ops.append("l")
         else:
@@ -196,16 +202,21 @@ def main(a):
             cases.append(("map", gen_map_ops(r, r.range(10, 60 if quick else 200), r.choice([6, 12, 40]))))
         for _ in range(40 if quick else 2000):
             cases.append(("vec", gen_vec_ops(r, r.range(5, 40 if quick else 150))))
+        for _ in range(16 if quick else 800):
+            cases.append(("vecw", gen_vec_ops(r, r.range(5, 30 if quick else 100), 1)))
+            cases.append(("vecl", gen_vec_ops(r, r.range(5, 30 if quick else 100), 2)))
         for _ in range(30 if quick else 1500):
             cases.append(("queue", gen_queue_ops(r, r.range(5, 40 if quick else 150))))
-    render = {"map": map_program, "vec": vec_program, "queue": queue_program}
-    cmd = {"map": "c19map", "vec": "c19vec", "queue": "c19queue"}
+    render = {"map": map_program, "vec": vec_program, "queue": queue_program, "vecw": vec_program,
+              "vecl": lambda ops: vec_program(ops, "long")}
+    cmd = {"map": "c19map", "vec": "c19vec", "queue": "c19queue", "vecw": "c19vec", "vecl": "c19vec"}
     expected = {}
-    for kind in ("map", "vec", "queue"):
+    for kind in ("map", "vec", "queue", "vecw", "vecl"):
         idx = [i for i, c in enumerate(cases) if c[0] == kind]
         if not idx:
             continue
-        _, out, _ = common.run_lines_parallel([drv, cmd[kind]], [esc(";".join(cases[i][1])) for i in idx])
+        # v.sort() without a comparator is the ascending sort of the model
+        _, out, _ = common.run_lines_parallel([drv, cmd[kind]], [esc(";".join("sa" if o_ == "so" else o_ for o_ in cases[i][1])) for i in idx])
         for i, o in zip(idx, out):
             expected[i] = "".join(x + "\n" for x in o.split("|")) + "END\n" if o else "END\n"
     progs = [render[k](ops) for (k, ops) in cases]
